@@ -184,6 +184,27 @@ Fixpoint unpack (root : bool) (t : tree) (files : list (path * bytes)) : option 
       end
   end.
 
+(* what a failed unpack leaves behind: everything created before the entry that failed *)
+Fixpoint mkdir_list_partial (root : bool) (t : tree) (l : list path) : tree :=
+  match l with
+  | [] => t
+  | q :: r => match mkdir_one root t q with Some t1 => mkdir_list_partial root t1 r | None => t end
+  end.
+
+Fixpoint unpack_partial (root : bool) (t : tree) (files : list (path * bytes)) : tree :=
+  match files with
+  | [] => t
+  | (p, d) :: r =>
+      match mkdir_all root t (removelast p) with
+      | None => mkdir_list_partial root t (prefixes (removelast p))
+      | Some t1 =>
+          match write_file root t1 p d with
+          | None => t1
+          | Some t2 => unpack_partial root t2 r
+          end
+      end
+  end.
+
 Definition tmp_tree : tree := [([tmp_dir_name], Dir false)].
 
 Definition setup_tree (root : bool) (files : list (path * bytes)) : option tree :=
@@ -251,6 +272,8 @@ Inductive action :=
   | ASkip
   | AStop
   | APanic                               (* a custom command that panics *)
+  | AKill                                (* kill: every background command gets a signal *)
+  | AKillWait                            (* kill, then wait: the statuses are checked as by skip *)
   | AIfExec (neg : bool) (prog : name) (a : action).  (* [exec:prog] a   /   [!exec:prog] a *)
 
 Record script := {
@@ -297,11 +320,12 @@ Record sstate := {
   wpresent : bool;                 (* the work directory exists *)
   dstack : list (nat * bool);      (* ts.deferred, most recent first *)
   bgl : list (nat * bool);         (* ts.background: handle, negated *)
+  failedf : bool;                  (* ts.failed: a line has failed (matters under ContinueOnError) *)
   obs : list event                 (* oldest first *)
 }.
 
 Definition sstate0 : sstate :=
-  {| ph := NotStarted; cwd := []; senv := []; tr := []; wpresent := false; dstack := []; bgl := []; obs := [] |}.
+  {| ph := NotStarted; cwd := []; senv := []; tr := []; wpresent := false; dstack := []; bgl := []; failedf := false; obs := [] |}.
 
 Definition ckey := (option value * name)%type.
 Definition ckey_eqb (a b : ckey) : bool :=
@@ -323,6 +347,7 @@ Record config := {
   key_by_path : bool;   (* execCache keyed by PATH value and program (true) or by program only *)
   names_see_env : bool; (* archive entry names are expanded with the initial environment (true) or with
                            an empty one, as before the repair: $WORK/x is then the absolute path /x *)
+  continue_on_error : bool; (* Params.ContinueOnError *)
   has_cancel : bool;    (* Params.Deadline set: cancel is not nil *)
   is_root : bool;       (* the test process ignores permission bits *)
   hostenv : host;
@@ -362,25 +387,29 @@ Inductive outcome := OCont | OFail | OSkip | OStop | OPanic.
 
 Definition add_obs (ss : sstate) (l : list event) : sstate :=
   {| ph := ph ss; cwd := cwd ss; senv := senv ss; tr := tr ss; wpresent := wpresent ss;
-     dstack := dstack ss; bgl := bgl ss; obs := obs ss ++ l |}.
+     dstack := dstack ss; bgl := bgl ss; failedf := failedf ss; obs := obs ss ++ l |}.
 Definition set_tree (ss : sstate) (t : tree) : sstate :=
   {| ph := ph ss; cwd := cwd ss; senv := senv ss; tr := t; wpresent := wpresent ss;
-     dstack := dstack ss; bgl := bgl ss; obs := obs ss |}.
+     dstack := dstack ss; bgl := bgl ss; failedf := failedf ss; obs := obs ss |}.
 Definition set_env (ss : sstate) (e : env) : sstate :=
   {| ph := ph ss; cwd := cwd ss; senv := e; tr := tr ss; wpresent := wpresent ss;
-     dstack := dstack ss; bgl := bgl ss; obs := obs ss |}.
+     dstack := dstack ss; bgl := bgl ss; failedf := failedf ss; obs := obs ss |}.
 Definition set_cwd (ss : sstate) (p : path) : sstate :=
   {| ph := ph ss; cwd := p; senv := senv ss; tr := tr ss; wpresent := wpresent ss;
-     dstack := dstack ss; bgl := bgl ss; obs := obs ss |}.
+     dstack := dstack ss; bgl := bgl ss; failedf := failedf ss; obs := obs ss |}.
 Definition set_ph (ss : sstate) (p : phase) : sstate :=
   {| ph := p; cwd := cwd ss; senv := senv ss; tr := tr ss; wpresent := wpresent ss;
-     dstack := dstack ss; bgl := bgl ss; obs := obs ss |}.
+     dstack := dstack ss; bgl := bgl ss; failedf := failedf ss; obs := obs ss |}.
 Definition set_dstack (ss : sstate) (d : list (nat * bool)) : sstate :=
   {| ph := ph ss; cwd := cwd ss; senv := senv ss; tr := tr ss; wpresent := wpresent ss;
-     dstack := d; bgl := bgl ss; obs := obs ss |}.
+     dstack := d; bgl := bgl ss; failedf := failedf ss; obs := obs ss |}.
 Definition set_bgl (ss : sstate) (b : list (nat * bool)) : sstate :=
   {| ph := ph ss; cwd := cwd ss; senv := senv ss; tr := tr ss; wpresent := wpresent ss;
-     dstack := dstack ss; bgl := b; obs := obs ss |}.
+     dstack := dstack ss; bgl := b; failedf := failedf ss; obs := obs ss |}.
+
+Definition set_failed (ss : sstate) : sstate :=
+  {| ph := ph ss; cwd := cwd ss; senv := senv ss; tr := tr ss; wpresent := wpresent ss;
+     dstack := dstack ss; bgl := bgl ss; failedf := true; obs := obs ss |}.
 
 Definition ev_int_all (b : list (nat * bool)) : list event := map (fun hn => EvInt (fst hn)) b.
 Definition ev_wait_all (b : list (nat * bool)) : list event := map (fun hn => EvWaited (fst hn)) b.
@@ -444,6 +473,11 @@ Fixpoint exec_action (cfg : config) (s : nat) (c : cache) (ss : sstate) (a : act
       if ok then (c, set_bgl ss1 [], OSkip) else (c, ss1, OFail)
   | AStop => (c, ss, OStop)
   | APanic => (c, ss, OPanic)
+  | AKill => (c, add_obs ss (ev_int_all (bgl ss)), OCont)
+  | AKillWait =>
+      let '(waited, ok) := skip_wait (bgl ss) in
+      let ss1 := add_obs ss (ev_int_all (bgl ss) ++ waited) in
+      if ok then (c, set_bgl ss1 [], OCont) else (c, ss1, OFail)
   | AIfExec neg prog a' =>
       let '(ans, c') := cached_look cfg s c ss prog in
       let ss1 := add_obs ss [EvCond prog ans] in
@@ -475,26 +509,35 @@ Definition sstep (cfg : config) (p : script) (s : nat) (c : cache) (ss : sstate)
       match setup_tree (is_root cfg) (effective_files cfg p) with
       | None =>
           (* unpacking failed: Setup is not reached *)
-          (c, {| ph := Ending VSetupFail SDefers; cwd := []; senv := []; tr := tmp_tree; wpresent := true;
-                 dstack := []; bgl := []; obs := [] |}, NoEffect)
+          (c, {| ph := Ending VSetupFail SDefers; cwd := []; senv := [];
+                 tr := unpack_partial (is_root cfg) tmp_tree (effective_files cfg p); wpresent := true;
+                 dstack := []; bgl := []; failedf := false; obs := [] |}, NoEffect)
       | Some t =>
           let ss1 := {| ph := Running 0; cwd := []; senv := e; tr := t; wpresent := true;
-                        dstack := rev (setup_defers p); bgl := []; obs := regs ++ [EvSetup e t (escapes_of cfg p)] |} in
+                        dstack := rev (setup_defers p); bgl := []; failedf := false;
+                        obs := regs ++ [EvSetup e t (escapes_of cfg p)] |} in
           if setup_err p then (c, set_ph ss1 (Ending VSetupFail SDefers), NoEffect)
           else (c, ss1, NoEffect)
       end
   | Running pc =>
       match nth_error (body p) pc with
-      | None => (c, set_ph ss (Ending VPass SInt), NoEffect)
+      | None => (c, set_ph ss (Ending (if failedf ss then VFail else VPass) SInt), NoEffect)
       | Some a =>
           let '(c', ss', o) := exec_action cfg s c ss a in
-          (c', set_ph ss' (match o with
-                           | OCont => Running (S pc)
-                           | OFail => Ending VFail SDefers
-                           | OSkip => Ending VSkip SDefers
-                           | OStop => Ending VStop SInt
-                           | OPanic => Ending VPanic SDefers
-                           end), NoEffect)
+          (c', match o with
+               | OCont => set_ph ss' (Running (S pc))
+               | OFail =>
+                   (* ts.failed = true; without ContinueOnError t.FailNow() at once *)
+                   if continue_on_error cfg then set_ph (set_failed ss') (Running (S pc))
+                   else set_ph (set_failed ss') (Ending VFail SDefers)
+               | OSkip =>
+                   (* cmdSkip: once a line has failed the run is a failure, not a skip *)
+                   set_ph ss' (Ending (if failedf ss' then VFail else VSkip) SDefers)
+               | OStop =>
+                   (* break; the background commands are dealt with; then FailNow if a line had failed *)
+                   set_ph ss' (Ending (if failedf ss' then VFail else VStop) SInt)
+               | OPanic => set_ph ss' (Ending VPanic SDefers)
+               end, NoEffect)
       end
   | Ending v SInt => (c, set_ph (add_obs ss (ev_int_all (bgl ss))) (Ending v SWait), NoEffect)
   | Ending v SWait => (c, set_ph (set_bgl (add_obs ss (ev_wait_all (bgl ss))) []) (Ending v SDefers), NoEffect)
@@ -510,7 +553,7 @@ Definition sstep (cfg : config) (p : script) (s : nat) (c : cache) (ss : sstate)
         let t := remove_all (is_root cfg) (tr ss) in
         (c, {| ph := Done v; cwd := cwd ss; senv := senv ss; tr := t;
                wpresent := match t with [] => false | _ => true end;
-               dstack := dstack ss; bgl := bgl ss; obs := obs ss ++ [EvWorkRemoved] |}, Finished)
+               dstack := dstack ss; bgl := bgl ss; failedf := failedf ss; obs := obs ss ++ [EvWorkRemoved] |}, Finished)
   | Done _ => (c, ss, NoEffect)
   end.
 
